@@ -225,12 +225,29 @@ def main(argv):
                     p.ptype = "axi" if getattr(p, "family", "") == "rects" else p.ptype
                 if kind == "m":
                     p.freq = 0.0
+                    # most planar magnetics problems are time-harmonic (linear materials): the double-frequency force / torque
+                    # integrals and the complex circuit values only exist there
+                    harmonic_m = p.ptype == "planar" and rng.random() < 0.6
+                    if getattr(p, "family", "") == "disc" and p.ptype == "planar":
+                        # a conducting iron disc carrying current in an air box with a prescribed gradient field: the body is surrounded by free
+                        # space, so the weighted-stress-tensor force and torque integrals (incl. their double-frequency parts) are defined and non-zero
+                        harmonic_m = True
+                        p.blockprops[0].update(Mu_x=1.0, Mu_y=1.0, J_re=0.0, Sigma=0.0)
+                        p.blockprops[1].update(Mu_x=rng.choice([50.0, 200.0]), J_re=rng.choice([1.0, -2.0]), Sigma=rng.choice([1.0, 5.0]))
+                        p.blockprops[1]["Mu_y"] = p.blockprops[1]["Mu_x"]
+                        p.bdryprops[0].update(A_0=0.0, A_1=rng.choice([1e-3, 2e-3]), A_2=rng.choice([0.0, -1e-3]))
+                        stats["free_bodies"] = stats.get("free_bodies", 0) + 1
+                    if harmonic_m:
+                        p.freq = rng.choice([60.0, 400.0])
+                        stats["harmonic_magnetics"] = stats.get("harmonic_magnetics", 0) + 1
+                        for m in p.blockprops:       # what a time-harmonic analysis accepts: no magnets, no on-edge laminations
+                            m.pop("H_c", None); m.pop("LamType", None); m.pop("LamFill", None)
                     if p.ptype != "planar" and p.units == "microns":
                         p.units = "millimeters"       # axisymmetric magnetics in micrometres: known finding of C10 (NaN potentials), not a Lua matter
                     for m in p.blockprops:
                         m.setdefault("Phi_hx", m.get("Phi_h", 0.0))
                         m.setdefault("Phi_hy", m.get("Phi_h", 0.0))
-                        if rng.random() < 0.25 and "BH" not in m and m.get("Mu_x", 1.0) > 1:
+                        if rng.random() < 0.25 and "BH" not in m and m.get("Mu_x", 1.0) > 1 and not harmonic_m:
                             mu = m["Mu_x"]
                             m["BH"] = [(0.0, 0.0)] + [(b, b / (4e-7 * math.pi * mu) * (1 + 0.2 * b * b)) for b in (0.25, 0.5, 1.0, 1.5, 2.0, 2.5)]
                 if kind == "h" and rng.random() < 0.4:
@@ -261,6 +278,20 @@ def main(argv):
                 sc.cmd(post + "groupselectblock")
                 sc.raw("w0,w1 = %s(%d)" % (rng.choice(sp.get(post + "blockintegral")), {"m": 2, "e": 0, "h": 0}[kind]))
                 sc.raw('print("@@W%d",tostring(w0),tostring(w1))' % j)
+                if kind == "m" and p.ptype == "planar" and pts:
+                    # a value returned by a query does not depend on what was asked before it: the weighted-stress-tensor force and
+                    # torque integrals (18-23, which share a cached weighting mask) asked in a shuffled order, then once more in the
+                    # reverse order after the selection was made anew
+                    order = [18, 19, 20, 21, 22, 23]
+                    rng.shuffle(order)
+                    order.remove(23); order.insert(0, 23)       # the last of the family first: nothing before it has built the mask
+                    for rnd, seq_ in (("a", order), ("b", list(reversed(order)))):
+                        sc.cmd(post + "clearblock")
+                        sc.cmd(post + "selectblock", n17(pts[0][0]), n17(pts[0][1]))
+                        for T_ in seq_:
+                            sc.raw("f0,f1 = %s(%d)" % (rng.choice(sp.get(post + "blockintegral")), T_))
+                            sc.raw('print("@@F%d_%d%s",tostring(f0),tostring(f1))' % (j, T_, rnd))
+                    stats["force_integral_orders"] = stats.get("force_integral_orders", 0) + 1
                 for ci, c in enumerate(p.circprops[:2]):
                     if kind == "m":
                         sc.raw('c0,c1,c2 = %s(%s)' % (rng.choice(sp.get("mo_getcircuitproperties")), q(c["name"])))
@@ -346,6 +377,21 @@ def main(argv):
                         ck.violation("solution-differs:" + kind, "analysis from the script vs stand-alone tools on the same problem: %d vs %d nodes (matched by coordinates; inf = different node sets), potentials differ by %.3g"
                                      % (len(v1), len(v0), dsol), dict(files=files_of(d)))
                     continue
+                # history independence of the force / torque integrals
+                fscale = max([abs(v_[0]) for tg_, v_ in vals.items() if tg_.startswith("F%d_" % j) and v_ and v_[0] is not None] + [0.0])
+                if vals.get("F%d_23b" % j) and vals["F%d_23b" % j][0]:
+                    stats["nonzero_double_frequency_torques"] = stats.get("nonzero_double_frequency_torques", 0) + 1
+                for T_ in (18, 19, 20, 21, 22, 23):
+                    fa, fb = vals.get("F%d_%d%s" % (j, T_, "a")), vals.get("F%d_%d%s" % (j, T_, "b"))
+                    if fa is None and fb is None:
+                        continue
+                    ok_ = fa is not None and fb is not None and fa[0] is not None and fb[0] is not None and abs(fa[0] - fb[0]) <= 1e-9 * fscale
+                    if not ok_:
+                        if nviol < 4:
+                            nviol += 1
+                            ck.violation("values-differ:m:order-of-queries", "mo_blockintegral(%d) on the same selection of the same solution returned %r when asked in one order "
+                                         "and %r in another (largest force / torque integral %.3g)" % (T_, fa, fb, fscale), dict(files=files_of(d)))
+                        break
                 ses = lua_post.Session(kind, "p" + ext, analyze=False)
                 for i, (x, y) in enumerate(pts):
                     ses.point("P%d_%d" % (j, i), x, y)
